@@ -324,21 +324,26 @@ Proof.
   destruct i as [|i']; cbn [nth] in *; [lia|]. apply IH. exact Hi.
 Qed.
 
+Lemma nth_le_sumN : forall l i, nth i l 0 <= sumN l.
+Proof.
+  induction l as [|x r IH]; intros [|i]; cbn [nth sumN]; try lia. specialize (IH i). lia.
+Qed.
+
 (* The table normalize_frequencies builds: same length, sums to at most 4096 (exactly 4095 in
    all but degenerate cases), and every symbol that occurs keeps a frequency of at least 1. *)
 Lemma normalize_table raw F :
   length raw = 256%nat -> normalize_frequencies raw = Some F ->
   length F = 256%nat /\ sumN F <= 4096 /\ (forall i, 0 < nth i raw 0 -> 0 < nth i F 0).
 Proof.
-  intros Hl. unfold normalize_frequencies. destruct (describe_frequencies raw) as [mi sum].
+  intros Hl. unfold normalize_frequencies.
+  pose proof (describe_sum raw) as Hd.
+  destruct (describe_frequencies raw) as [mi sum]. cbn [snd] in Hd.
   destruct (TWO32 <=? sum); [discriminate|].
   destruct (sum =? 0) eqn:Es.
   { intros H; inversion H; subst F. split; [apply repeat_length|]. split.
     - unfold zeros256. rewrite sumN_repeat0. lia.
-    - intros i Hi. exfalso.
-      pose proof (describe_sum raw) as Hd. (* sum = sumN raw = 0 contradicts a positive entry *)
-      revert Hi Es. generalize (eq_refl (describe_frequencies raw)). intros _ Hi Es.
-      clear Hd. exact (N.lt_irrefl 0 (N.lt_le_trans _ _ _ Hi (N.le_0_l _))) || lia. }
+    - intros i Hi. exfalso. (* sum = sumN raw = 0 contradicts a positive entry *)
+      pose proof (nth_le_sumN raw i). lia. }
   set (g := fun f => if f =? 0 then 0 else N.max (f * 4095 / sum) 1).
   set (nf := map g raw). set (nsum := sumN nf).
   assert (Hnf : length nf = 256%nat) by (unfold nf; rewrite map_length; exact Hl).
